@@ -223,7 +223,14 @@ func RandScenario(r *core.RNG, o Opts) Scenario {
 					st.Helper = r.Bool()
 				}
 				if r.Chance(15) {
-					st.Defers = append(st.Defers, DeferStep{Body: core.Pick(r, []string{"", fill("var D_{g}_{t} = 2\n", name, t.Name)})})
+					d := DeferStep{Body: core.Pick(r, []string{"", fill("var D_{g}_{t} = 2\n", name, t.Name)})}
+					if r.Chance(40) { // a callback that registers callbacks: gengo runs them too (index loop over c.defers)
+						d.Nested = append(d.Nested, DeferStep{Body: fill("var DN_{g}_{t} = 3\n", name, t.Name)})
+						if r.Chance(40) {
+							d.Nested = append(d.Nested, DeferStep{Nested: []DeferStep{{Body: fill("var DNN_{g}_{t} = 4\n", name, t.Name)}}})
+						}
+					}
+					st.Defers = append(st.Defers, d)
 				}
 				if faulty && r.Chance(25) {
 					switch k := r.Intn(8); {
